@@ -11,7 +11,7 @@
 (*  ev = "read": in (d), api, max, sent, res (ok|unknown|exceeds|eof|other|   *)
 (*     panic), consumed, next (sentinel|frame|err|panic|na), g (fields read   *)
 (*     through the public getters), alloc (bytes per call, -1 = not measured),*)
-(*     pool (<<op 1=get 2=put, kind, object>>...), dupacq, x = [res, f]       *)
+(*     pool (<<op 1=get 2=put, kind, object>>...), dupacq, x = [res, same, f] *)
 (*     (what golang.org/x/net read from the same bytes)                       *)
 (*  ev = "write": how (api|fwd), a (what the setters were given), src (d,     *)
 (*     fwd only), rres, wn, werr, out (d), x (x/net on out)                   *)
@@ -167,6 +167,8 @@ ReadSig(e, d) ==
 XStrict(P) == \/ P.ty \in {TData, THeaders, TPriority, TRst, TPushPromise, TContinuation} /\ P.sid = 0
               \/ P.ty \in {TSettings, TPing, TGoAway} /\ P.sid # 0
               \/ P.ty = TWindowUpdate /\ P.inc = 0
+\* X = [res, f]: f is x/net's reading (same = 1: identical to the code's reading g, logged once)
+XOf(e) == [res |-> e.x.res, f |-> IF e.ev = "read" /\ e.x.same = 1 THEN e.g ELSE e.x.f]
 SelfOne(b, max, X) ==
   LET P == ParseFrame(b, max) IN
   IF Len(b) >= 9 /\ P.ty = 16 THEN TRUE
@@ -360,8 +362,8 @@ Class(e) ==
        ELSE "none"
 
 SelfCheck(e) ==
-  CASE e.ev = "read" -> SelfOne(Held0(e), e.max, e.x)
-    [] e.ev = "write" -> (DOK(e.out) /\ e.panic = "" /\ Len(Mat(e.out)) > 0) => SelfOne(Mat(e.out), 0, e.x)
+  CASE e.ev = "read" -> SelfOne(Held0(e), e.max, XOf(e))
+    [] e.ev = "write" -> (DOK(e.out) /\ e.panic = "" /\ Len(Mat(e.out)) > 0) => SelfOne(Mat(e.out), 0, XOf(e))
     [] OTHER -> TRUE
 
 Init == i \in 1..Len(Trace) /\ done = FALSE
